@@ -37,7 +37,7 @@ class Gen:
         self.order = ["g"]
         self.txdef = {}            # tx name -> op (for copies)
         self.n = 0
-        self.opts = dict(p_tx=0.7, max_tx=3, p_copy=0.0, p_same_cb=0.0, p_fork=0.4, p_unusual=0.15, max_height=None, zero_rewards=False, p_deep_fork=0.0,
+        self.opts = dict(p_tx=0.7, max_tx=3, p_copy=0.0, p_same_cb=0.0, p_fork=0.4, p_unusual=0.15, max_height=None, zero_rewards=False, p_deep_fork=0.0, deep_min=11, p_sibling=0.0,
                          prefix="", dts=None)
         self.opts.update(opts)
 
@@ -58,10 +58,15 @@ class Gen:
         best = self.best()
         if self.opts.get("p_deep_fork") and self.r.random() < self.opts["p_deep_fork"]:
             # a branch that starts FAR below the head (more than 10 blocks): stale forks are validated like any other block
-            deep = [self.L[l] for l in self.order if self.L[l].height <= best.height - 11]
+            deep = [self.L[l] for l in self.order if self.L[l].height <= best.height - self.opts["deep_min"]]
             if deep:
                 self.deep_forks = getattr(self, "deep_forks", 0) + 1
                 return self.r.choice(deep)
+        if self.opts.get("p_sibling") and best.parent is not None and self.r.random() < self.opts["p_sibling"]:
+            # a competitor of the best block itself (same height): keeps same-height pairs coming all the way up a long history
+            par = best.parent if not isinstance(best.parent, str) else self.L.get(best.parent)
+            if par is not None:
+                return par
         if x >= self.opts["p_fork"] or len(self.order) == 1:
             return best
         tips = [t for t in self.tips() if t is not best]
